@@ -491,3 +491,8 @@ Definition corr_eval (kt : N * text) : N * (text * list (text * text)) :=
   if k =? 0 then (0, (sc t, []))
   else if k =? 1 then (0, ([], map (fun w => (w, [])) (words t)))
   else preprocess_out t.
+
+(* ------------------------------------------------------------------ for C31_directive_insertion_plain *)
+(* text without '#', '/', \r \f \v: declarations without comments, directives and #define lines *)
+Definition plain_text (s : text) : bool :=
+  forallb (fun c => negb (c =? HASH) && negb (c =? SLASH) && negb (other_ws c)) s.
